@@ -19,7 +19,8 @@ EXPLANATION = (
     "frozen difference table (110 of 286 pairs differ today; the table says which tokens, and a hand-written reason where "
     "the difference was read). A token outside the table — one twin edited alone: a dropped validate/resolve/intersects "
     "call, a changed width, endianness, magic constant or conversion type — is the violation. Plus state-machine rules of "
-    "the hand-written poll_* implementations shared with C14.R3/C02.R1.")
+    "the hand-written poll_* implementations shared with C14.R3/C02.R1."
+    " (R3) the async BGZF reader keeps the stamp/position pairing of C02.R6 in async fn seek, poll_seek and poll_fill_buf.")
 ASSUMPTIONS = ["the sync side is pinned by the unit-test suite; the async side inherits that through set equality",
                "the frozen differences are today's behaviour: recorded, partly triaged, not claimed equivalent"]
 NOT_DECIDED = ["equality of results under every poll schedule / Pending pattern (only the structural necessary part: same checks, "
@@ -129,6 +130,11 @@ def run(ctx):
         else:
             ctx.ok("C16.R2", k, "Pending is returned before any self field is stored on that path (or the store re-parks the state)", f.loc())
     ctx.floor("C16.R2", "hand-written poll_* trait methods on the async side", n, 15)
+
+    ctx.rule("C16.R3", "sibling invariant kept by the async twins: the async BGZF reader (async fn seek, poll_seek, poll_fill_buf) moves its "
+                       "running position past every block it stamps, like the sync reader (C02.R6 applied to the async side)")
+    from .c02 import stamp_position_rule
+    stamp_position_rule(ctx, "C16.R3", ("noodles_bgzf::r#async::io::reader::", "<noodles_bgzf::r#async::io::reader::"), 2)
 
 
 def _uncounted(t):
